@@ -16,6 +16,17 @@ def gen_line(rng):
     return fs
 
 
+def gen_text_delim(rng, fs):
+    """a ';'-delimited line, possibly with fewer tokens than fields (absent fields must read as missing)"""
+    toks = []
+    for fd in fs[: rng.randint(0, len(fs))] if rng.random() < 0.5 else fs:
+        if fd["k"] == "int":
+            toks.append(str(rng.randint(0, 10 ** (fd["size"] - 1) - 1)) if rng.random() < 0.85 else "x")
+        else:
+            toks.append("".join(rng.choice("abc") for _ in range(rng.randint(0, fd["size"]))))
+    return ";".join(toks) + "\n"
+
+
 def gen_text(rng, fs):
     parts = []
     for fd in fs:
@@ -40,7 +51,7 @@ class CHECK(Check):
     entry = "C14"
     theorems = ["C14_inv", "C14_frame_register", "C14_frame_result", "C14_frame_file", "C14_read_fresh", "C14_write_own_data",
                 "C14_fresh_file"]
-    rule = ("(a) interleavings of 3-25 operations over 2-4 register objects of 1-3 classes (two classes may share one Line object), "
+    rule = ("(a) interleavings of 3-25 operations over 2-4 register objects of 1-3 classes (two classes may share one Line object; some Line objects are ';'-delimited and are read with short lines), "
             "the lists returned by Line.read, and 1-3 register files: construct a register, read a line into it, write it, call "
             "Line.read directly and keep the result, mutate any list the user holds, set a shared field's value, File(), "
             "File.read(content), append / remove on a file, moving an element from one file to another; every interleaving of length<=3 over a 7-operation alphabet on two "
@@ -64,6 +75,8 @@ class CHECK(Check):
         for _ in range(nr):
             nl = rng.randint(1, 2)
             lines = [gen_line(rng) for _ in range(nl)]
+            delims = [(";" if rng.random() < 0.3 else None) for _ in range(nl)]
+            gt = lambda ln: gen_text_delim(rng, lines[ln]) if delims[ln] else gen_text(rng, lines[ln])
             ops = []
             nregs, nlists, nfiles = 0, 0, 0
             reg_line = []
@@ -79,14 +92,14 @@ class CHECK(Check):
                     nlists += 1
                 elif k < 0.35:
                     r = rng.randrange(nregs)
-                    ops.append([1, r, gen_text(rng, lines[reg_line[r]])])
+                    ops.append([1, r, gt(reg_line[r])])
                     list_line.append(reg_line[r])
                     nlists += 1
                 elif k < 0.5:
                     ops.append([2, rng.randrange(nregs)])
                 elif k < 0.58:
                     ln = rng.randrange(nl)
-                    ops.append([3, ln, gen_text(rng, lines[ln])])
+                    ops.append([3, ln, gt(ln)])
                     list_line.append(ln)
                     nlists += 1
                 elif k < 0.72:
@@ -110,7 +123,7 @@ class CHECK(Check):
                     ops.append([9, rng.randrange(nfiles)])
                 else:
                     ops.append([10, rng.randrange(nfiles), rng.randrange(nfiles)])
-            yield {"kind": "graph", "lines": lines, "ops": ops}
+            yield {"kind": "graph", "lines": lines, "delims": delims, "ops": ops}
 
     # ---------------------------------------------------------------- implementation
     def run_graph(self, case):
@@ -118,7 +131,9 @@ class CHECK(Check):
         from cfinterface.components.defaultregister import DefaultRegister
         from cfinterface.components.line import Line
         from cfinterface.files.registerfile import RegisterFile
-        line_objs = [Line([fl.mk_field(fd) for fd in fs]) for fs in case["lines"]]
+        delims = case.get("delims") or [None] * len(case["lines"])
+        line_objs = [Line([fl.mk_field(fd) for fd in fs], delimiter=d) for fs, d in zip(case["lines"], delims)]
+        reg_delim = []
         classes = [type("W%d" % i, (Register,), {"IDENTIFIER": "", "IDENTIFIER_DIGITS": 0, "LINE": lo, "__slots__": []})
                    for i, lo in enumerate(line_objs)]
         FC = type("WFile", (RegisterFile,), {"REGISTERS": [], "__slots__": []})
@@ -143,14 +158,18 @@ class CHECK(Check):
                 if t == 0:
                     r = classes[op[1]]()
                     regs.append(r)
+                    reg_delim.append(delims[op[1]])
                     list_objs.append(r.data)
                 elif t == 1:
-                    regs[op[1]].read(io.StringIO(op[2]))
+                    # a delimited register line starts with the (empty) identifier token
+                    regs[op[1]].read(io.StringIO((reg_delim[op[1]] + op[2]) if reg_delim[op[1]] else op[2]))
                     list_objs.append(regs[op[1]].data)
                 elif t == 2:
                     b = io.StringIO()
                     regs[op[1]].write(b)
                     out = b.getvalue()
+                    if reg_delim[op[1]] and out.startswith(reg_delim[op[1]]):
+                        out = out[1:]
                 elif t == 3:
                     res = line_objs[op[1]].read(op[2])
                     results.append(res)
@@ -233,7 +252,8 @@ class CHECK(Check):
     def model_arg(self, case, fresh=True):
         if case["kind"] == "fresh":
             return [fresh, [], [[6], [6], [8, 0], [6]]]
-        lines = [[[[fl.field_sx(fd), []] for fd in fs], [], [], False] for fs in case["lines"]]
+        delims = case.get("delims") or [None] * len(case["lines"])
+        lines = [[[[fl.field_sx(fd), []] for fd in fs], [], ([d] if d else []), False] for fs, d in zip(case["lines"], delims)]
         ops = []
         for op in case["ops"]:
             if op[0] in (4, 5):
@@ -408,7 +428,7 @@ class CHECK(Check):
                 sub.append(op if op[0] in (6, 7) else [op[0], 0])
         if not sub:
             return None, None
-        return {"kind": "graph", "lines": case["lines"], "ops": sub}, None
+        return {"kind": "graph", "lines": case["lines"], "delims": case.get("delims"), "ops": sub}, None
 
     def nontrivial(self, case, obs):
         if case["kind"] == "fresh":
